@@ -42,10 +42,13 @@ pub enum BOp {
     UpdateLen(u64),
 }
 
-pub const TEMPLATES: [&str; 5] = ["a\tb {msg}", "{k}|{prefix}", "{prefix}|{msg}", "{msg}\t!", ">\t{ \"m\":\t\"{msg}\" }"];
+pub const TEMPLATES: [&str; 6] = ["a\tb {msg}", "{k}|{prefix}", "{prefix}|{msg}", "{msg}\t!", ">\t{ \"m\":\t\"{msg}\" }", "{wide_msg}|"];
 
 pub fn style(i: usize) -> ProgressStyle {
-    ProgressStyle::with_template(TEMPLATES[i]).unwrap().with_key("k", |_: &ProgressState, w: &mut dyn Write| {
+    let base = ProgressStyle::with_template(TEMPLATES[i]).unwrap();
+    // template 5: a custom key is registered under the name `msg`; {wide_msg} keeps showing the bar's own message
+    let base = if i == 5 { base.with_key("msg", |_: &ProgressState, w: &mut dyn Write| w.write_str("k\tk").unwrap()) } else { base };
+    base.with_key("k", |_: &ProgressState, w: &mut dyn Write| {
         // the tab arrives once as a single char and once inside a formatted chunk
         w.write_str("x").unwrap();
         w.write_char('\t').unwrap();
@@ -136,11 +139,13 @@ pub struct RefState {
     pub tab_width: usize,
     pub tpl: usize,
     pub on_finish: Fin,
+    /// terminal width (for the wide element of template 5)
+    pub term_w: usize,
 }
 
 impl RefState {
     pub fn new(len: Option<u64>, on_finish: Fin, tpl: usize) -> Self {
-        RefState { pos: 0, len, msg: String::new(), prefix: String::new(), finished: false, hidden_done: false, tab_width: 8, tpl, on_finish }
+        RefState { pos: 0, len, msg: String::new(), prefix: String::new(), finished: false, hidden_done: false, tab_width: 8, tpl, on_finish, term_w: 80 }
     }
 
     pub fn expand(&self, s: &str) -> String {
@@ -236,6 +241,11 @@ impl RefState {
             1 => format!("{}|{}", self.expand("x\ty\tz"), prefix),
             2 => format!("{}|{}", prefix, msg),
             4 => format!("{}{}\" }}", self.expand(">\t{ \"m\":\t\""), msg),
+            5 => {
+                let room = self.term_w.saturating_sub(1);
+                let shown: String = msg.chars().take(room).collect();
+                format!("{:<room$}|", shown)
+            }
             _ => format!("{}{}", msg, self.expand("\t!")),
         };
         line.split('\n').map(|s| s.to_string()).collect()
